@@ -33,7 +33,7 @@ pub fn build(tape: &[u16]) -> Case {
     let k = t.choose(n);
     let fault_kind = t.choose(3);
     let items: Vec<String> = (0..n).map(|i| format!("{}", 1 + ((i * 3 + t.choose(3)) % 9))).collect();
-    let template = t.choose(7);
+    let template = t.choose(8);
     let mut setup = Vec::new();
     if t.chance(1, 2) {
         setup.push("CREATE INDEX ON :N(v)".to_string());
@@ -96,6 +96,16 @@ pub fn build(tape: &[u16]) -> Case {
             }
             (stmt, prefix, vec![], "unwind_create_unique", "duplicate_constrained_value".to_string())
         }
+        6 => {
+            // single-row SET refused by the constraint: nothing may change at all
+            setup.push("CREATE CONSTRAINT ON (u:U) ASSERT u.k IS UNIQUE".to_string());
+            for i in 0..(n + 1) {
+                setup.push(format!("CREATE (:U {{k: {}, uid: {}, w: {}}})", 20 + i, 500 + i, i));
+            }
+            let victim = 500 + 1 + (k % n);
+            let stmt = format!("MATCH (u:U {{uid: {victim}}}) SET u.k = 20");
+            (stmt, None, vec![], "single_row_set_unique", "duplicate_constrained_value".to_string())
+        }
         5 => {
             setup.push("CREATE CONSTRAINT ON (u:U) ASSERT u.k IS UNIQUE".to_string());
             for i in 0..n {
@@ -129,7 +139,21 @@ fn fresh(case: &Case) -> Result<GraphStore, String> {
 }
 
 fn full_state(store: &GraphStore) -> (String, Vec<String>) {
-    (vcheck::dump::dump_with_ids(store).render(), vcheck::dump::schema_dump(store))
+    // the row store (through the merged view) and, separately, what the column store holds:
+    // queries read the column first, so a value left only there is visible to users
+    let mut s = vcheck::dump::dump_with_ids(store).render();
+    for id in vcheck::dump::live_node_ids(store) {
+        let idx = id.as_u64() as usize;
+        let mut keys = store.node_columns.get_property_keys(idx);
+        keys.sort();
+        for k in keys {
+            let v = store.node_columns.get_property(idx, &k);
+            if !v.is_null() {
+                s.push_str(&format!("C n{} {}={}\n", id.as_u64(), k, vcheck::values::canon(&v)));
+            }
+        }
+    }
+    (s, vcheck::dump::schema_dump(store))
 }
 
 /// index-backed lookups must agree with what the dump says about property v of :N nodes
@@ -204,7 +228,7 @@ pub fn judge(case: &Case, kf_active: bool) -> Verdict {
         if let Err(m) = index_consistent(&store) {
             return Verdict::Violation(format!("after the failed `{}`: {m}", case.stmt));
         }
-        return Verdict::Held(case.k > 0);
+        return Verdict::Held(case.k > 0 || case.template == "single_row_set_unique");
     }
     if kf_active {
         // no statement-level atomicity: the state equals "rows before the failing one applied"
